@@ -16,7 +16,7 @@ from . import harness as h
 class Stage:
     def __init__(self, name, mc=None, emit=None, driver=None, trace=None, scn_filter=None, nontrivial=None,
                  extra_scenarios=None, mc_workers=h.NCPU, drive_env=None, selftest=True, post_traces=None,
-                 drive_shards=h.NCPU, max_per_shard=8000, simulate=None, deviations=None, sanity_events=()):
+                 drive_shards=h.NCPU, max_per_shard=8000, simulate=None, deviations=None, sanity_events=(), pairing=None):
         self.name = name
         self.mc = mc                    # (module, cfg) model-checked with the property invariants
         self.emit = emit                # (module, cfg) printing <<"SCN", json>>
@@ -33,6 +33,7 @@ class Stage:
         self.max_per_shard = max_per_shard
         self.simulate = simulate        # (module, cfg, 'num=..', depth) extra simulation run of the model
         self.deviations = deviations or {}   # deviation name -> trace cfg with that named deviation switched on
+        self.pairing = pairing          # (keyfn(scn) -> hashable, obsfn(trace) -> JSON-able): C11 pairing of the two halves
         self.sanity_events = set(sanity_events)  # events that cross-check the SPEC against Python itself (3.2)
 
 
@@ -166,13 +167,37 @@ def run_stage(stage, tier, seed, out, replay_scenarios=None):
         out.rejected.append({'stage': stage.name, 'scn': t['scn'], 'ev': t['ev'], 'matched': matched,
                              'next': t['ev'][matched] if matched < len(t['ev']) else None,
                              'deviation': explained.get(i)})
+    if stage.pairing:
+        keyfn, obsfn = stage.pairing
+        groups = {}
+        for t in traces:
+            groups.setdefault(json.dumps(keyfn(t['scn']), sort_keys=True), []).append(t)
+        pairs = []
+        for key, ts in groups.items():
+            ref = ts[0]
+            for other in ts[1:]:
+                pairs.append({'scn': {'key': json.loads(key), 'a': ref['scn'], 'b': other['scn']},
+                              'ev': [{'ev': 'Pair', 'a': json.dumps(obsfn(ref), sort_keys=True),
+                                      'b': json.dumps(obsfn(other), sort_keys=True)}]})
+        if not pairs:
+            raise h.Machinery('stage %s: no pairs of halves were formed' % stage.name)
+        prej, pst = h.validate('PairTrace', 'PairTrace.cfg', pairs, max_per_shard=stage.max_per_shard)
+        out.states += pst['distinct']
+        out.transitions += pst['generated']
+        out.traces += len(pairs)
+        out.pairs = getattr(out, 'pairs', 0) + len(pairs)
+        for i, matched in prej:
+            pr = pairs[i]
+            out.rejected.append({'stage': stage.name + '_pair', 'scn': pr['scn'], 'ev': pr['ev'], 'matched': matched,
+                                 'next': pr['ev'][0], 'deviation': None})
+        out.notes.append('%s: %d pairs of halves compared by PairTrace, %d differ' % (stage.name, len(pairs), len(prej)))
     out.notes.append('%s: %d scenarios driven, %d traces validated by %s (%d TLC states), %d rejected' % (
         stage.name, len(scns), ntr, stage.trace[0], st['distinct'], len([1 for i, _ in rejected if i < ntr])))
 
 
-def finish(prop, tier, seed, out, t0, rule, assumptions, exhaustive, extra_cov=None):
+def finish(prop, tier, seed, out, t0, rule, assumptions, exhaustive, extra_cov=None, also_findings_of=()):
     """classify rejections against known findings, print verdict lines, write evidence, return exit code"""
-    findings = [f for f in h.load_findings().get('known', []) if f['property'] == prop]
+    findings = [f for f in h.load_findings().get('known', []) if f['property'] == prop or f['property'] in also_findings_of]
     known_hit = {}
     violations = []
     for r in out.rejected:
